@@ -129,6 +129,8 @@ def mutations(seed, rng, budget, big_endian=False, dense_limit=1536, text=False,
         # interpreter runs (Miri): a small stratified sample, every operator class represented
         by = {}
         for m in out:
+            if m[3] == "insert-long":
+                continue        # 70 000 bytes through an interpreter cost minutes per case
             by.setdefault(m[3], []).append(m)
         pick = []
         while len(pick) < cap and by:
